@@ -69,7 +69,7 @@ func run(k *report.Check, oracle string) {
 	k.Budget(140, 1500)
 	bound := k.Pick(1, 2)
 	k.ExploreSched(fmt.Sprintf("runner/slow-operator,delays<=%d", bound), mc.Config{Bound: bound, Deadline: k.Within(0.25)}, params{oracle: oracle, slowOp: true, thorough: k.Thorough()}, body)
-	k.ExploreSched(fmt.Sprintf("runner/all-configs,delays<=%d", bound), mc.Config{Bound: bound}, params{oracle: oracle, thorough: k.Thorough()}, body)
+	k.ExploreSched(fmt.Sprintf("runner/all-configs,delays<=%d", bound), mc.Config{Bound: bound, Deadline: k.Within(0.55)}, params{oracle: oracle, thorough: k.Thorough()}, body)
 	k.ExploreSched(fmt.Sprintf("runner/focused,delays<=%d", bound+1), mc.Config{Bound: bound + 1}, params{oracle: oracle, focused: true, thorough: k.Thorough()}, body)
 }
 
